@@ -393,15 +393,31 @@ func obsSummary(obs []azObs) []string {
 // ---------- scenario generation ----------
 
 type azGen struct {
-	rng *RNG
-	pg  *progGen
-	err bool // error-prone content allowed
+	lastCheck SCheck // the previous generated check (source of operator twins)
+	rng       *RNG
+	pg        *progGen
+	err       bool // error-prone content allowed
 	// focus, when set, restricts the queries an adversarial block tries to satisfy (e.g. to the
 	// checks of the block that follows it)
 	focus []SRule
 }
 
 func (g *azGen) check() SCheck {
+	// a twin of the previous check: all queries the same, one operator of one query replaced by its sibling
+	if len(g.lastCheck) > 0 && g.rng.Chance(8) {
+		for k := range g.lastCheck {
+			if tw, ok := operatorTwin(g.rng, g.lastCheck[k]); ok {
+				c := append(SCheck{}, g.lastCheck...)
+				c[k] = tw
+				return c
+			}
+		}
+	}
+	c := g.freshCheck()
+	g.lastCheck = c
+	return c
+}
+func (g *azGen) freshCheck() SCheck {
 	n := 1 + g.rng.Intn(2)
 	if g.rng.Chance(15) {
 		n = 3
